@@ -725,7 +725,7 @@ class Parser:
             return ast.Constant(value=tree.value + cmd.string, **locs, **cmd.loc_end())
 
         # prefix@(...)
-        if isinstance(tree, ast.Constant) and isinstance(cmd, ast.Starred):
+        if isinstance(cmd, ast.Starred) and not isinstance(tree, ast.Tuple):
             return ast.Tuple(
                 elts=[tree, cmd],
                 ctx=Load,
@@ -733,7 +733,12 @@ class Parser:
                 end_lineno=cmd.end_lineno,
                 end_col_offset=cmd.end_col_offset,
             )
-        # @(...)suffix
+        # @(...)suffix: a starred piece can only be glued inside a tuple, whatever follows it
+        if isinstance(tree, ast.Starred | ast.Tuple) and not isinstance(cmd, TokenInfo):
+            elts = [*tree.elts, cmd] if isinstance(tree, ast.Tuple) else [tree, cmd]
+            return ast.Tuple(
+                elts=elts, ctx=Load, **locs, end_lineno=cmd.end_lineno, end_col_offset=cmd.end_col_offset
+            )
         if isinstance(tree, ast.Starred | ast.Tuple) and isinstance(cmd, TokenInfo):
             suffix = ast.Constant(value=cmd.string, **cmd.loc())
             elts = [*tree.elts, suffix] if isinstance(tree, ast.Tuple) else [tree, suffix]
